@@ -36,6 +36,11 @@
 (*                public setters (two versions of every input): in every     *)
 (*                reachable state the closed forms equal those of a freshly  *)
 (*                built problem with the values currently assigned.          *)
+(*   hard       : ILL-CONDITIONED instances of rto / ugla (one scalar datum *)
+(*                with noise standard deviation sigma = 2^-se, se >= 16):     *)
+(*                floating-point conjugate gradients need MORE than n steps;  *)
+(*                mean and covariance in Kalman form, exact for EVERY sigma   *)
+(*                (own INIT / NEXT: InitHard, NextHard; see the end).         *)
 (* Code departures are NAMED DEVIATIONS (constant Dev), off in the deciding *)
 (* configurations; a *.dev.cfg turns one on and expects a counterexample.  *)
 (***************************************************************************)
@@ -55,7 +60,7 @@ vars == <<c, d, x, k>>
 
 Devs == {"none", "PriorMeanNotWhitened", "NoiseSqrtNotTransposed", "StackOrderSwapped", "UglaRhsUnscaled",
          "VectorCovBroadcast", "MatrixIgnoresGeometry", "MapUsesPrecForCov", "StaleCovAfterReassign"}
-ASSUME Dev \in Devs /\ Part \in {"rto", "ugla", "map", "poly", "route", "reassign"}
+ASSUME Dev \in Devs /\ Part \in {"rto", "ugla", "map", "poly", "route", "reassign", "hard"}
 
 \* ---------------------------------------------------------------------------
 \* integer linear algebra (sequences of Int)
@@ -729,4 +734,153 @@ Spec == Init /\ [][Next]_vars
 Emitted == (Emit /\ k = -1 /\ (Part = "rto" => x = VR(IZeroV(c.n)))) =>
              PrintT("@@CASE " \o ToJson(CASE Part = "rto" -> RtoCase [] Part = "ugla" -> UglaCase [] Part = "map" -> MapCase
                                           [] Part = "poly" -> PolyCase [] Part = "route" -> RouteCase) \o " @@END")
+\* ===========================================================================
+\* Part "hard": ILL-CONDITIONED instances of Linear RTO / UGLA (C06, round 5)
+\* ===========================================================================
+\* Every instance of parts rto / ugla is tiny AND perfectly conditioned: conjugate gradients reach the solution of the
+\* stacked least-squares problem in <= n (+1) iterations whatever maxit / tol the user asked for, so an inner solver
+\* that stops early (iteration cap, tolerance ignored) is invisible there.  The instances of this part have ONE scalar
+\* measurement  y = g.x + noise  whose noise standard deviation is  sigma = 2^-se  (se >= 16: "small noise variance"),
+\* and a prior of ordinary size (the catalogue of part rto, a diagonal prior with n = 6..12 distinct precisions, or the
+\* local Gaussian of UGLA).  The normal matrix  Lambda = H + T g g^T  (H prior precision, T = sigma^-2 = 4^se) has one
+\* eigenvalue ~ T |g|^2 and n - 1 eigenvalues of size O(1): cond(Lambda) >= T |g|^2 / trace(H) ~ 10^10 .. 10^13.  In
+\* floating point the huge eigen-direction re-enters the Krylov space after every step (loss of orthogonality): CGLS
+\* needs about 2 n iterations; the replayer demonstrates this on every instance (vacuity guard) before it counts it.
+\*
+\* Exact expectation with SMALL numbers although T = 4^se does not fit into 32 bits: T is kept SYMBOLIC.  With
+\*     Hi = H^-1,  v = Hi g,  b = g.v,  u0 = Hi r0  (prior mean),  iota = y - g.u0  (innovation)
+\* the posterior is, for EVERY T > 0 (Kalman / Sherman-Morrison form),
+\*     Lambda(T)^-1 = Hi - kappa v v^T,      mu(T) = u0 + kappa iota v,      kappa = T / (1 + T b) = 1 / (b + sigma^2).
+\* TLC computes Hi, v, b, u0, iota exactly (numbers of the size of the prior) and checks the polynomial identities
+\*     (H + T g g^T) ((1 + T b) Hi - T v v^T) = (1 + T b) I,    (H + T g g^T) ((1 + T b) u0 + T iota v) = (1 + T b)(r0 + T y g)
+\* coefficient by coefficient in T (HardKalmanForm, n <= 3) resp. through the facts they reduce to (HardReference: H Hi = I,
+\* Hi symmetric, H v = g, b = g.v, H u0 = r0).  sigma is an exact rational of the spec (1 / 2^se); only the last step
+\* kappa = 1 / (b + sigma^2) is evaluated by the replayer (exact fractions), as the atoms of lib/SymLog are.
+\* Algorithm shaped: the prior part of the stacked operator / data as the code forms it (MtM0, Mtb0) against the
+\* reference (H, r0): HardNormalEquations; the data row of the stacked operator is tau g with tau sigma = 1.
+RECURSIVE HardPow2(_)
+HardPow2(e) == IF e = 0 THEN 1 ELSE 2 * HardPow2(e - 1)
+HardSq      == <<1, 2, 3, 4, 6, 8, 12, 16, 24, 32, 48, 64>>     \* square-root precisions of the diagonal prior (3-smooth: small common denominators)
+HardG(n)    == [i \in 1..n |-> IF ((3 * i) % 5) - 2 = 0 THEN 1 ELSE ((3 * i) % 5) - 2]
+HardMu(n)   == [i \in 1..n |-> (((i * i) + 1) % 3) - 1]            \* prior mean of the diagonal prior; g.mu # y for n = 6, 8, 12 (innovation # 0)
+HardY       == YVec(1, 1)[1]
+
+\* all configurations carry the same fields (unused ones 0 / "-")
+HardRec(fam, pk, n, av, j, mk, mdl, lk, s, b, u, wv, se, nf) ==
+    [kind |-> "hard", fam |-> fam, pk |-> pk, n |-> n, m |-> 1, av |-> av, i1 |-> 1, j |-> j, mk |-> mk, mdl |-> mdl,
+     lk |-> lk, s |-> s, b |-> b, u |-> u, wv |-> wv, se |-> se, nf |-> nf]
+HardNf(q)   == IF q % 2 = 0 THEN "sqrtprec" ELSE "sqrtcov"      \* input form of the noise: sqrtprec = tau, sqrtcov = sigma
+\* Linear RTO, prior from the catalogue of part rto (all 22 forms), n = 2, 3
+HardRtoCat  == { HardRec("rto", "cat", n, av, j, IF (j + n) % 2 = 0 THEN "vec" ELSE "scalar",
+                         IF (j + av) % 2 = 0 THEN "matrix" ELSE "func", "-", 0, 0, 0, 0, se, HardNf(j + av + n)) :
+                   n \in {2, 3}, av \in {1, 2}, j \in 1..NPF, se \in (IF Thorough THEN {18, 20} ELSE {20}) }
+\* Linear RTO, diagonal prior with n distinct precisions HardSq[i]^2 given as vector (j = 6: prec, j = 8: sqrtprec)
+HardRtoDiag == { HardRec("rto", "diag", n, 0, j, "vec", IF (j + n) % 4 = 0 THEN "matrix" ELSE "func", "-", 0, 0, 0, 0, 16, HardNf(j \div 2 + n \div 2)) :
+                   n \in (IF Thorough THEN {6, 8, 12} ELSE {8}), j \in {6, 8} }
+HardUglaAll == { HardRec("ugla", "lmrf", n, av, 0, "-", "-", lk, s, b, u, wv, 20, HardNf(u + s + av)) :
+                   n \in (IF Thorough THEN {2, 3} ELSE {2}), av \in {1, 2}, lk \in {"zero", "scalar", "vec"}, s \in 1..3, b \in 1..2,
+                   u \in 1..5, wv \in {0, 1} }
+SelHard(r) ==
+    CASE r.pk = "cat"  -> Thorough \/ (r.j \in {4, 8, 13, 16, 17, 20, 22} /\ (r.av = 1 \/ r.j \in {16, 22}))
+      [] r.pk = "diag" -> TRUE
+      [] r.pk = "lmrf" -> /\ UglaLattice(r) /\ (r.lk = "zero" => r.wv = 0) /\ (r.n = 3 => r.s = 1 /\ r.b = 1)
+                          /\ (Thorough \/ ((r.u + r.s + r.av) % 3 = 0 /\ (r.b = 1 \/ r.u <= 2) /\ (r.av = 1 \/ r.lk = "vec")))
+HardConfigs == {r \in HardRtoCat \cup HardRtoDiag \cup HardUglaAll : SelHard(r)}
+
+HardRow(r)    == IF r.pk = "diag" THEN HardG(r.n) ELSE AMat(1, r.n, IF r.av = 0 THEN 1 ELSE r.av)[1]
+HardBlocks(r) == IF r.pk = "diag" THEN << [L |-> IDiag([i \in 1..r.n |-> HardSq[i]]), mu |-> HardMu(r.n)] >>
+                 ELSE PriorBlocks(PForm(r.j), r.n, r.mk)
+HardPriorRec(r) == IF r.pk = "diag" THEN [kind |-> "vec", form |-> GForm(r.j).form, order |-> 0, delta |-> 0]
+                   ELSE PForm(r.j)
+HardPriorParam(r) ==
+    IF r.pk = "diag" THEN [i \in 1..r.n |-> IF GForm(r.j).form = "prec" THEN R(HardSq[i] * HardSq[i]) ELSE R(HardSq[i])]
+    ELSE IF PForm(r.j).kind \in {"gmrf", "joint"} THEN Zero ELSE GaussParam(PForm(r.j).kind, PForm(r.j).form, r.n, 1)
+
+HardDerived(r) ==
+    LET n    == r.n
+        g    == HardRow(r)
+        tau  == HardPow2(r.se)
+        fam  == IF r.fam = "rto"
+                THEN LET pbl  == HardBlocks(r)
+                         P    == SumMats([q \in 1..Len(pbl) |-> IMM(IT(pbl[q].L), pbl[q].L)], IZeroM(n, n))       \* reference: prior precision
+                         r0   == SumVecs([q \in 1..Len(pbl) |-> IMV(IMM(IT(pbl[q].L), pbl[q].L), pbl[q].mu)], IZeroV(n))
+                         \* algorithm: prior rows of the stacked operator / of the stacked data as the code forms them
+                         Mp   == Concat([q \in 1..Len(pbl) |-> pbl[q].L])
+                         btp  == Concat([q \in 1..Len(pbl) |-> IF Dev = "PriorMeanNotWhitened" THEN pbl[q].mu \o IZeroV(Len(pbl[q].L) - n)
+                                                                  ELSE IMV(pbl[q].L, pbl[q].mu)])
+                         diag == r.pk = "diag"
+                     IN [H |-> MR(P), r0 |-> VR(r0), MtM0 |-> MR(IMM(IT(Mp), Mp)), Mtb0 |-> VR(IMV(IT(Mp), btp)),
+                         Hi |-> IF diag THEN MDiag([i \in 1..n |-> Q(1, P[i][i])]) ELSE QM(IAdj(P), IDet(P)),
+                         pd |-> IF diag THEN P = IDiag([i \in 1..n |-> P[i][i]]) /\ \A i \in 1..n : P[i][i] > 0 ELSE IPosDef(P),
+                         ok |-> TRUE, pbl |-> pbl, Np |-> Len(Mp), ud |-> <<>>]
+                ELSE LET ud   == UglaDerived(r)
+                         DtWD == MM(MT(MR(ud.D)), MM(MDiag(ud.w), MR(ud.D)))
+                         opf  == Q(SqrtInvS[r.s][1], SqrtInvS[r.s][2])
+                         rhf  == IF Dev = "UglaRhsUnscaled" THEN One ELSE opf
+                         H    == MScale(RInv(ud.s), DtWD)                                      \* documented local prior N(loc, s (D^T W D)^-1)
+                     IN [H |-> H, r0 |-> VScale(RInv(ud.s), MV(DtWD, VR(ud.loc))),
+                         MtM0 |-> MScale(RMul(opf, opf), DtWD), Mtb0 |-> VScale(RMul(opf, rhf), MV(DtWD, VR(ud.loc))),
+                         Hi |-> IF ud.ok THEN RatInv(H) ELSE H,
+                         pd |-> MSym(H) /\ IPosDef(ToIntM(H, DenM(H))),
+                         ok |-> ud.ok, pbl |-> <<>>, Np |-> Len(ud.D), ud |-> ud]
+        v    == MV(fam.Hi, VR(g))
+        u0   == MV(fam.Hi, fam.r0)
+    IN [n |-> n, g |-> g, y |-> HardY, tau |-> tau, sigma |-> Q(1, tau), v |-> v, b |-> Dot(VR(g), v), u0 |-> u0,
+        iota |-> RSub(R(HardY), Dot(VR(g), u0)), gg |-> IDot(g, g)] @@ fam
+
+\* ---- invariants of part hard ----------------------------------------------------
+HardReference == Part = "hard" =>
+    /\ d.ok /\ d.pd /\ MSym(d.H) /\ MSym(d.Hi)
+    /\ RMul(d.sigma, R(d.tau)) = One /\ c.se >= 16                        \* whitening of the datum: tau = 1 / sigma
+    /\ MM(d.H, d.Hi) = MId(d.n)
+    /\ MV(d.H, d.v) = VR(d.g) /\ d.b = Dot(VR(d.g), d.v) /\ RLt(Zero, d.b)
+    /\ MV(d.H, d.u0) = d.r0
+    /\ d.iota = RSub(R(d.y), Dot(VR(d.g), d.u0))
+HardNormalEquations == Part = "hard" =>
+    /\ d.MtM0 = d.H                                                        \* prior rows of M: their Gram matrix is the prior precision
+    /\ d.Mtb0 = d.r0                                                       \* prior rows of M^T b~: precision times prior mean
+\* cond_2(Lambda) >= lambda_max / lambda_min >= (T |g|^2) / trace(H)  (a unit vector orthogonal to g exists for n >= 2);
+\* with trace(H) <= 2^12 |g|^2 and T = 4^se, se >= 16:  cond >= 2^20 ... and in fact ~ 2^(2 se)
+HardIllConditioned == Part = "hard" =>
+    /\ d.n >= 2 /\ d.gg > 0
+    /\ RLe(RSumSeq([i \in 1..d.n |-> d.H[i][i]]), R(4096 * d.gg))
+    /\ (c.pk = "diag" => d.iota # Zero)                                    \* the posterior mean is not simply the prior mean
+\* the two polynomial identities, coefficient by coefficient (T^0, T^1, T^2); n <= 3 (the outer products overflow 32 bit beyond)
+HardKalmanForm == (Part = "hard" /\ d.n <= 3) =>
+    LET n   == d.n
+        gq  == VR(d.g)
+        G   == F([i \in 1..n |-> [j \in 1..n |-> R(d.g[i] * d.g[j])]])
+        VV  == F([i \in 1..n |-> [j \in 1..n |-> RMul(d.v[i], d.v[j])]])
+        gu  == Dot(gq, d.u0)
+        MAddS(A, B) == F([i \in 1..n |-> VAddS(A[i], B[i])])          \* sums over the least common denominator (32 bit)
+        MSubS(A, B) == F([i \in 1..n |-> VSubS(A[i], B[i])])
+    IN /\ MM(d.H, d.Hi) = MId(n)
+       /\ MAddS(MSubS(MScale(d.b, MM(d.H, d.Hi)), MM(d.H, VV)), MM(G, d.Hi)) = MScale(d.b, MId(n))
+       /\ MSubS(MScale(d.b, MM(G, d.Hi)), MM(G, VV)) = MZero(n, n)
+       /\ MV(d.H, d.u0) = d.r0
+       /\ VAddS(VAddS(VScale(d.b, MV(d.H, d.u0)), VScale(d.iota, MV(d.H, d.v))), VScale(gu, gq)) = VAddS(VScale(d.b, d.r0), VScale(R(d.y), gq))
+       /\ VAddS(VScale(RMul(d.b, gu), gq), VScale(RMul(d.iota, d.b), gq)) = VScale(RMul(d.b, R(d.y)), gq)
+
+HardNoise == [kind |-> "scal", form |-> c.nf, shape |-> "scalar", param_q |-> IF c.nf = "sqrtprec" THEN R(d.tau) ELSE d.sigma]
+HardCase ==
+    LET common == [kind |-> "hard", fam |-> c.fam, pk |-> c.pk, n |-> c.n, se |-> c.se, av |-> c.av, g |-> d.g, yv |-> d.y,
+                   tau |-> d.tau, sigma_q |-> d.sigma, H_q |-> d.H, Hi_q |-> d.Hi, u0_q |-> d.u0, v_q |-> d.v, b_q |-> d.b,
+                   iota_q |-> d.iota, Np |-> d.Np]
+    IN IF c.fam = "rto"
+       THEN common @@
+            [nl |-> 1, m |-> <<1>>, mk |-> c.mk, mdl |-> c.mdl, j |-> c.j,
+             A |-> << <<d.g>> >>, y |-> << <<d.y>> >>, Ln |-> << << <<d.tau>> >> >>, noise |-> << HardNoise >>,
+             prior |-> LET pf == HardPriorRec(c)
+                       IN [kind |-> pf.kind, form |-> pf.form, order |-> pf.order, delta |-> pf.delta, shape |-> ParamShape(pf.kind),
+                           param_q |-> HardPriorParam(c),
+                           blocks |-> [q \in 1..Len(d.pbl) |-> [L |-> d.pbl[q].L, mu |-> d.pbl[q].mu]]]]
+       ELSE common @@
+            [m |-> 1, lk |-> c.lk, wv |-> c.wv, u |-> c.u, si |-> c.s, bi |-> c.b,
+             A |-> <<d.g>>, y |-> <<d.y>>, Ln |-> << <<d.tau>> >>, noise |-> HardNoise,
+             D |-> d.ud.D, xk |-> d.ud.xk, loc |-> d.ud.loc, beta_q |-> d.ud.beta, scale_q |-> d.ud.s, w_q |-> d.ud.w]
+EmittedHard == (Emit /\ Part = "hard") => PrintT("@@CASE " \o ToJson(HardCase) \o " @@END")
+
+\* configuration enumeration: no transition (the statement holds for every sigma, the replayer performs the draws)
+InitHard == /\ Part = "hard" /\ c \in HardConfigs /\ d = HardDerived(c) /\ x = <<>> /\ k = -1
+NextHard == UNCHANGED vars
 =============================================================================
